@@ -27,6 +27,7 @@ def minI64 : Int := -9223372036854775808
 def maxI64 : Int := 9223372036854775807
 /-- the value fits an int64 -/
 def I64 (x : Int) : Prop := minI64 ≤ x ∧ x ≤ maxI64
+instance (x : Int) : Decidable (I64 x) := by unfold I64; infer_instance
 
 /-- int64 wrap-around of a mathematical integer -/
 def wrap64 (x : Int) : Int := (x + 9223372036854775808) % 18446744073709551616 - 9223372036854775808
